@@ -627,6 +627,14 @@ func (s *ErrSigningFailure) Error() string {
 	return fmt.Sprintf("signing error: %v", s.Err)
 }
 
+// Unwrap returns the underlying error so that errors.Is and errors.As see it.
+func (s *ErrSigningFailure) Unwrap() error {
+	return s.Err
+}
+
+// Unwarp is the original, misspelled name of Unwrap.
+//
+// Deprecated: use Unwrap (or errors.Is / errors.As).
 func (s *ErrSigningFailure) Unwarp() error {
 	return s.Err
 }
